@@ -418,7 +418,87 @@ func runC16(c *core.Ctx) {
 			}
 		}
 	}
-	c.R.Bound = fmt.Sprintf("%d definition sets; all permutations (n<=7), all 3-load assignments with closed prefixes (n<=9), all single and pair extend moves x 2 placements", len(sets))
+	// (d) "all rejected": each set plus ONE extension unit that breaks a rule which only shows across definitions (an
+	// interface gains a field its implementers lack; an object claims an interface it does not satisfy; a non-object joins a
+	// union; an enum value or a field is added twice). Every permutation and every closed-prefix partition into <= 3 loads
+	// must be refused - in particular the arrangement "everything valid first, the breaking extension in a later load".
+	for si, set := range sets {
+		for bi, bad := range c16Breakers(set) {
+			if len(bad.WellFormed()) == 0 {
+				c.Count("breakers_discarded_by_reference")
+				continue
+			}
+			units := bad.Units()
+			n := len(units)
+			var arrs []arrangement
+			if n <= 6 {
+				for _, p := range permsOf(n) {
+					arrs = append(arrs, arrangement{[][]int{p}, "permutation"})
+				}
+			}
+			if n <= 9 {
+				total := 1
+				for i := 0; i < n; i++ {
+					total *= 3
+				}
+				for code := 0; code < total; code++ {
+					loads := [][]int{nil, nil, nil}
+					x := code
+					for i := 0; i < n; i++ {
+						loads[x%3] = append(loads[x%3], i)
+						x /= 3
+					}
+					var ne [][]int
+					for _, l := range loads {
+						if len(l) > 0 {
+							ne = append(ne, l)
+						}
+					}
+					if len(ne) < 2 || !prefixClosed(units, ne) || len(loads[0]) == 0 || (len(loads[1]) == 0 && len(loads[2]) > 0) {
+						continue
+					}
+					arrs = append(arrs, arrangement{ne, "partition"})
+				}
+			}
+			all := make([]int, n)
+			for i := range all {
+				all[i] = i
+			}
+			arrs = append(arrs, arrangement{[][]int{all}, "canonical"})
+			for _, arr := range arrs {
+				if c.Expired() {
+					completed = false
+					break
+				}
+				if !c.Owns(fmt.Sprintf("%d|breaker%d|%s|%v", si, bi, arr.kind, arr.loads)) {
+					continue
+				}
+				c.Nontrivial()
+				c.Eval()
+				c.R.Distinct++
+				got := c16Load(units, arr, bad.DirectiveNames(), false)
+				if got.panicked != nil {
+					c.Violation("panic", map[string]string{"site": got.panicked.Site, "class": got.panicked.Class}, map[string]interface{}{"set": si, "sdl": bad.SDL(), "loads": arr.loads, "panic": got.panicked.Value})
+					continue
+				}
+				if got.accepted {
+					c.Outcome("ill-formed-accepted")
+					var b strings.Builder
+					for li, load := range arr.loads {
+						fmt.Fprintf(&b, "# load %d\n", li+1)
+						for _, ui := range load {
+							b.WriteString(units[ui].Text() + "\n")
+						}
+					}
+					c.Violation("arrangement-diff", map[string]string{"set": fmt.Sprint(si), "arrangement": arr.kind, "what": "ill-formed-accepted", "breaker": bad.Defs[len(bad.Defs)-1].Name}, map[string]interface{}{"set": si, "arrangement": b.String(),
+						"diff": "the definition set breaks a rule (" + bad.WellFormed()[0].Rule + ") and is refused as one document, but this arrangement was accepted"})
+					continue
+				}
+				c.Outcome("ill-formed-refused")
+			}
+		}
+	}
+	c.R.Bound = fmt.Sprintf("%d definition sets; all permutations (n<=7), all 3-load assignments with closed prefixes (n<=9), all single and pair extend moves x 2 placements; ill-formed sets (one rule-breaking extension each) refused in every arrangement", len(sets))
 	if !completed {
 		c.Cap("deadline reached")
 	}
@@ -573,5 +653,89 @@ func extendMoves(s *sgen.Schema) []extMove {
 			}})
 		}
 	}
+	return out
+}
+
+// c16Breakers returns copies of the set with one rule-breaking extension unit appended.
+func c16Breakers(set *sgen.Schema) []*sgen.Schema {
+	var out []*sgen.Schema
+	add := func(d *sgen.Def) {
+		m := set.Clone()
+		d.Extend = true
+		m.Defs = append(m.Defs, d)
+		out = append(out, m)
+	}
+	N := sgen.N
+	find := func(name string) *sgen.Def {
+		for _, d := range set.Defs {
+			if d.Name == name && !d.Extend && d.Kind != sgen.KDirective {
+				return d
+			}
+		}
+		return nil
+	}
+	for _, d := range set.Defs {
+		if d.Extend {
+			continue
+		}
+		switch d.Kind {
+		case sgen.KInterface:
+			implemented := false
+			for _, o := range set.Defs {
+				for _, i := range o.Implements {
+					if i == d.Name && o.Kind == sgen.KObject {
+						implemented = true
+					}
+				}
+			}
+			if implemented {
+				add(&sgen.Def{Kind: sgen.KInterface, Name: d.Name, Fields: []*sgen.Field{{Name: "zq7", Type: N("Int")}}})
+			}
+		case sgen.KObject:
+			// claim an interface the object does not satisfy
+			for _, i := range set.Defs {
+				if i.Kind != sgen.KInterface || i.Extend {
+					continue
+				}
+				has := false
+				for _, x := range d.Implements {
+					if x == i.Name {
+						has = true
+					}
+				}
+				lacks := false
+				for _, f := range i.Fields {
+					found := false
+					for _, of := range d.Fields {
+						if of.Name == f.Name {
+							found = true
+						}
+					}
+					if !found {
+						lacks = true
+					}
+				}
+				if !has && lacks {
+					add(&sgen.Def{Kind: sgen.KObject, Name: d.Name, Implements: []string{i.Name}})
+					break
+				}
+			}
+			if len(d.Fields) > 0 {
+				add(&sgen.Def{Kind: sgen.KObject, Name: d.Name, Fields: []*sgen.Field{{Name: d.Fields[0].Name, Type: N("Int")}}})
+			}
+		case sgen.KUnion:
+			for _, e := range set.Defs {
+				if (e.Kind == sgen.KEnum || e.Kind == sgen.KInterface || e.Kind == sgen.KInput) && !e.Extend {
+					add(&sgen.Def{Kind: sgen.KUnion, Name: d.Name, Members: []string{e.Name}})
+					break
+				}
+			}
+		case sgen.KEnum:
+			if len(d.Values) > 0 {
+				add(&sgen.Def{Kind: sgen.KEnum, Name: d.Name, Values: []*sgen.EnumVal{{Name: d.Values[0].Name}}})
+			}
+		}
+	}
+	_ = find
 	return out
 }
